@@ -450,6 +450,26 @@ class NPProxy(object):
                 return r
         return real_np.asarray(a, dtype, *args, **kw)
 
+    def ascontiguousarray(self, a, dtype=None, **kw):
+        """numpy returns the caller's own array when it already is C-contiguous and of the requested dtype: an object array of
+        solver reals stands for a float64 array, so for dtype None/float the result aliases a C-contiguous input"""
+        if has_sym(a) and isinstance(a, real_np.ndarray) and a.dtype == object:
+            want_float = dtype is None
+            if not want_float:
+                try:
+                    want_float = np.dtype(dtype) == np.dtype(float)
+                except TypeError:
+                    want_float = False
+            if isinstance(a, IntSymArray):
+                if dtype is None:
+                    return a if a.flags.c_contiguous else a.copy(order='C')
+            elif want_float:
+                return a if a.flags.c_contiguous else a.copy(order='C')
+            r = self._to_obj_domain(a, dtype) if dtype is not None else None
+            if r is not None:
+                return real_np.ascontiguousarray(r) if not r.flags.c_contiguous else r
+        return real_np.ascontiguousarray(a, dtype=dtype, **kw)
+
     def array(self, obj, dtype=None, *args, **kw):
         if dtype is not None and has_sym(obj):
             r = self._to_obj_domain(obj, dtype)
